@@ -27,7 +27,7 @@ use mpd_client::tag::Tag;
 use mpd_protocol::response::Frame;
 use mpd_protocol::Connection;
 
-use crate::tags::{named_tags, tag_name};
+use crate::tags::tag_name;
 use crate::util::{gen_text, gen_word, hex, unhex, Rng};
 use crate::Cfg;
 
@@ -511,7 +511,9 @@ fn gen_soup(r: &mut Rng, names: &[String], bvals: &[&str]) -> Fields {
 pub fn gen(cfg: &Cfg) -> Vec<String> {
     let mut r = Rng::new(cfg.seed);
     let mut ops = Vec::new();
-    let names: Vec<String> = named_tags().iter().map(|t| String::from_utf8(tag_name(t)).unwrap()).collect();
+    // MPD's tag names from the harness's own table, NOT derived from the library under test (a name
+    // table that went wrong there must not also change what the server is simulated to send)
+    let names: Vec<String> = crate::tags::MPD_TAG_NAMES.iter().map(|s| s.to_string()).collect();
     let bvals = boundary_values();
     let f = |k: &str, v: &str| (k.as_bytes().to_vec(), v.as_bytes().to_vec());
 
@@ -531,6 +533,18 @@ pub fn gen(cfg: &Cfg) -> Vec<String> {
             ops.push(format!("song.{cmd} {}", ser_fields(&[f("file", "a"), f("Disc", v), f("Track", v)])));
             ops.push(format!("song.{cmd} {}", ser_fields(&[f("Id", v)])));
             ops.push(format!("song.{cmd} {}", ser_fields(&[f("file", v)])));
+        }
+    }
+    // every PAIR of known tags on one song: two tags that collapse into one map key (a name table
+    // that is no longer injective) lose an entry only when both occur together
+    for i in 0..names.len() {
+        for j in (i + 1)..names.len() {
+            let (a, b) = (names[i].as_str(), names[j].as_str());
+            if !usable_key(a) || !usable_key(b) || ATTRS.contains(&a) || ATTRS.contains(&b) {
+                continue;
+            }
+            let l = vec![Entry { kind: 'S', path: b"p".to_vec(), lines: vec![f(a, "first"), f(b, "second"), f(a, "third")] }];
+            ops.push(format!("song.listing.find {}", ser_listing(&l)));
         }
     }
     // every known tag in four spellings, twice per song, and MPD's names the crate does not know
